@@ -206,6 +206,19 @@ class StmtMixin:
                     raise PyRaise(ExcV(IndexError, ()))
                 cell.seq = SeqV(cell.seq.kind, cell.seq.elem, items=items)
                 return
+            if isinstance(cell, SeqCell):
+                seq = cell.seq
+                it = to_term(idx, "int")
+                nt = seqops.len_term(seq)
+                if not isinstance(idx, int) or idx < 0:
+                    if self.path.decide(it < 0):
+                        it = it + nt
+                if not self.path.decide(z3.And(it >= 0, it < nt)):
+                    raise PyRaise(ExcV(IndexError, ()))
+                it = z3.simplify(it)
+                lo = it.as_long() if z3.is_int_value(it) else it
+                cell.seq = seqops.remove_range(seq, lo, (lo + 1) if isinstance(lo, int) else z3.simplify(it + 1))
+                return
             if isinstance(cell, ObjCell):
                 m = self.find_method(cell.cls, "__delitem__")
                 if m:
